@@ -806,6 +806,61 @@ func canReachBlock(from, to *ssa.BasicBlock) bool {
 // ---------------------------------------------------------------------------
 // C06
 
+// checkBufferCapacity: "the buffer is full" means the configured number of items are pending — the channel the
+// producers fill is made with exactly the configured buffer size as capacity (not a value derived from it).
+func (c *Ctx) checkBufferCapacity(r *Report, a *asyncInfo) {
+	cfg := c.configIntFields()
+	n := 0
+	for _, f := range c.Funcs {
+		if recvNamed(f) != a.T && (f.Parent() == nil || recvNamed(f.Parent()) != a.T) {
+			continue
+		}
+		eachInstr(f, func(in ssa.Instruction) {
+			st, ok := in.(*ssa.Store)
+			if !ok {
+				return
+			}
+			fa, ok := st.Addr.(*ssa.FieldAddr)
+			if !ok || fieldOfAddr(fa) != a.Buf {
+				return
+			}
+			mk, ok := st.Val.(*ssa.MakeChan)
+			if !ok {
+				return
+			}
+			n++
+			key := "C06.capacity:" + fname(f)
+			lc := &linCtx{c: c, fn: f, vars: map[string]ssa.Value{}}
+			alts := lc.lin(mk.Size, 0)
+			good := false
+			var name string
+			if len(alts) == 1 && alts[0].L.K == 0 && len(alts[0].L.Coef) == 1 {
+				for v, k := range alts[0].L.Coef {
+					if ld, ok := lc.vars[v].(*ssa.UnOp); ok && k == 1 {
+						if fa, ok := ld.X.(*ssa.FieldAddr); ok {
+							if nme, ok := cfg[fieldOfAddr(fa)]; ok {
+								good, name = true, nme
+							}
+						}
+					}
+				}
+			}
+			if good {
+				r.OK(key, "the buffer channel's capacity is exactly the configured %s", name)
+			} else {
+				var ss []string
+				for _, al := range alts {
+					ss = append(ss, al.L.String())
+				}
+				r.Fail(key, c.instrPos(mk), "the buffer channel's capacity is %s, not the configured buffer size itself: the overflow policy fires while the configured buffer still has room (or only after it is exceeded)", strings.Join(ss, " | "))
+			}
+		})
+	}
+	if n == 0 {
+		r.Undecided("C06.capacity:"+a.T.Obj().Name(), c.pos(a.T.Obj().Pos()), "no make(chan) stored into the buffer field found")
+	}
+}
+
 func checkC06(c *Ctx, r *Report) {
 	r.Explanation = "decided: the buffer channel has a single consumer goroutine (the worker started by the only go statement in Start; the only other receive is the DiscardOldest removal in a producer) and the worker spawns nothing, so FIFO order of the channel is delivery order; events and raw writes are sent on the same channel; under each overflow policy constant the buffer-full path does what the policy says — Discard: no send, no removal, item counted, only non-blocking channel operations; DiscardOldest: every removal is a receive from the same channel, the arriving item ends enqueued, only non-blocking operations; Block: the item ends enqueued through a blocking send and nothing is counted or removed; the policy parser maps each documented name to the constant of that name. Not decided: scheduling; FIFO of Go channels is trusted."
 	r.Undecidedcl = []string{"per-producer order under real schedules (follows from single FIFO queue + single consumer; channel FIFO is trusted)"}
@@ -815,6 +870,7 @@ func checkC06(c *Ctx, r *Report) {
 	if a == nil {
 		return
 	}
+	c.checkBufferCapacity(r, a)
 	// single consumer
 	type site struct {
 		fn   *ssa.Function
@@ -1621,11 +1677,16 @@ func (c *Ctx) checkCloseAll(r *Report, ro *Roles) {
 			var why string
 			eachInstr(stop, func(in ssa.Instruction) {
 				call, ok := in.(*ssa.Call)
-				if !ok || !calleeIs(call, "os", "File", "Close") {
+				if !ok {
 					return
 				}
-				v := call.Call.Args[0]
-				if !c.fromFileField(v, f) {
+				var v ssa.Value
+				if calleeIs(call, "os", "File", "Close") {
+					v = call.Call.Args[0]
+				} else if i, vv := c.closingHelperArg(call, func(a ssa.Value) bool { return c.fromFileField(a, f) }); i >= 0 {
+					v = vv // a helper of the module that closes its parameter whenever it is non-nil
+				}
+				if v == nil || !c.fromFileField(v, f) {
 					return
 				}
 				// guards must be nil tests of that same value only
@@ -1652,6 +1713,73 @@ func (c *Ctx) checkCloseAll(r *Report, ro *Roles) {
 		}
 	}
 	r.Floor("file-holding fields", n, 3)
+}
+
+// closingHelperArg: the call goes to a function of the module that closes one of its *os.File parameters on every
+// path on which that parameter is non-nil, and the matching argument satisfies want.
+func (c *Ctx) closingHelperArg(call ssa.CallInstruction, want func(ssa.Value) bool) (int, ssa.Value) {
+	sc := call.Common().StaticCallee()
+	if sc == nil || !c.inModule(sc) || len(sc.Blocks) == 0 || call.Common().IsInvoke() {
+		return -1, nil
+	}
+	for i, a := range call.Common().Args {
+		if i < len(sc.Params) && want(a) && closesParam(sc, sc.Params[i]) {
+			return i, a
+		}
+	}
+	return -1, nil
+}
+
+// closesParam: no path from f's entry reaches a return without calling (*os.File).Close on p, except over the
+// edge on which p was just tested nil.
+func closesParam(f *ssa.Function, p *ssa.Parameter) bool {
+	if len(f.Blocks) == 0 {
+		return false
+	}
+	closes := func(b *ssa.BasicBlock) bool {
+		for _, in := range b.Instrs {
+			if ci, ok := in.(ssa.CallInstruction); ok {
+				if _, isGo := in.(*ssa.Go); isGo {
+					continue
+				}
+				if calleeIs(ci, "os", "File", "Close") && len(ci.Common().Args) > 0 && ci.Common().Args[0] == p {
+					return true
+				}
+			}
+		}
+		return false
+	}
+	seen := map[*ssa.BasicBlock]bool{}
+	var walk func(b *ssa.BasicBlock) bool
+	walk = func(b *ssa.BasicBlock) bool {
+		if seen[b] {
+			return true
+		}
+		seen[b] = true
+		if closes(b) {
+			return true
+		}
+		last := b.Instrs[len(b.Instrs)-1]
+		switch x := last.(type) {
+		case *ssa.Return:
+			return false
+		case *ssa.If:
+			if bo, ok := x.Cond.(*ssa.BinOp); ok && bo.X == p && isNilConst(bo.Y) && (bo.Op == token.EQL || bo.Op == token.NEQ) {
+				nonNil := b.Succs[0]
+				if bo.Op == token.EQL {
+					nonNil = b.Succs[1]
+				}
+				return walk(nonNil)
+			}
+		}
+		for _, su := range b.Succs {
+			if !walk(su) {
+				return false
+			}
+		}
+		return true
+	}
+	return walk(f.Blocks[0])
 }
 
 func isNilConst(v ssa.Value) bool {
@@ -1771,6 +1899,12 @@ func (c *Ctx) checkFdBound(r *Report, ro *Roles) {
 			return nil
 		}
 		cur := dec(s.A)
+		if _, isGo := in.(*ssa.Go); !isGo {
+			if i, v := c.closingHelperArg(ci, func(a ssa.Value) bool { return cur.pend[a.Name()] }); i >= 0 {
+				delete(cur.pend, v.Name())
+				return []string{enc(cur)}
+			}
+		}
 		switch {
 		case funcIs(sc, "os", "File", "Close"):
 			v := ci.Common().Args[0]
@@ -1815,6 +1949,10 @@ func (c *Ctx) checkFdBound(r *Report, ro *Roles) {
 				}
 			}
 			_ = moved
+			// transfer: a value swapped out of another field goes straight into this one
+			if cur.pend[newV.Name()] {
+				delete(cur.pend, newV.Name())
+			}
 			if isNilConst(newV) {
 				cur.f[f.Name()] = "empty"
 			} else {
